@@ -645,7 +645,9 @@ class Hist:
                 # mostly the newest versions, but regularly an old one: persistence
                 args.append(self.nver - 1 - min(self.nver - 1, rng.choice([0, 0, 0, 1, 1, 2])) if rng.random() < recent else rng.randrange(self.nver))
             elif k == "x":
-                x = elem(rng, fam, self.uni)
+                # the value of a mapping association stays small (sums of values must fit the driver's 63-bit integers)
+                isval = fam in ("map", "hmap", "omap") and name != "delete2" and i == len(kinds) - 1 and kinds.count("x") >= 2
+                x = rng.randrange(-5, 10) if isval else elem(rng, fam, self.uni)
                 args.append(x)
                 # only the element position of set/bag/map ops enters the pool of used keys (position 1), not values
                 if self.uni is not None and i == 1 and not is_query(fam, name) and name in ("adjoin", "adjoin2", "adjoinx", "set", "setx", "incr", "bump"):
